@@ -14,8 +14,6 @@ package main
 
 import (
 	"fmt"
-	"go/constant"
-	"go/token"
 	"go/types"
 	"math/big"
 
@@ -28,10 +26,8 @@ type finSummary struct {
 }
 
 var (
-	finMemo   = map[*ssa.Function]*finSummary{}
-	finBusy   = map[*ssa.Function]bool{}
-	garrMemo  = map[*ssa.Global][]*big.Int{}
-	garrKnown = map[*ssa.Global]bool{}
+	finMemo = map[*ssa.Function]*finSummary{}
+	finBusy = map[*ssa.Function]bool{}
 )
 
 // finDomain: the values a parameter of this type takes.  reflect.Kind: the 27
@@ -155,158 +151,6 @@ func (f *Flow) finArgSet(arg *Term, env Env) ISet {
 		cur = cur.Intersect(mkSet(0, 26))
 	}
 	return cur
-}
-
-// globalArrayConsts: the elements of a package-level array of integers or
-// booleans (true = 1) that is filled once by the package initialiser with
-// constants (element stores at constant indices, directly or through the
-// composite literal's temporary) and is only read afterwards — indexed loads and
-// whole-array loads; no store, no slice, no address handed on anywhere else in
-// the package.
-func (w *World) globalArrayConsts(g *ssa.Global) ([]*big.Int, bool) {
-	if garrKnown[g] {
-		v := garrMemo[g]
-		return v, v != nil
-	}
-	garrKnown[g] = true
-	if g.Pkg != w.Pkg {
-		return nil, false
-	}
-	pt, ok := g.Type().Underlying().(*types.Pointer)
-	if !ok {
-		return nil, false
-	}
-	arr, ok := pt.Elem().Underlying().(*types.Array)
-	if !ok || arr.Len() > 4096 {
-		return nil, false
-	}
-	eb, ok := arr.Elem().Underlying().(*types.Basic)
-	if !ok || eb.Info()&(types.IsInteger|types.IsBoolean) == 0 {
-		return nil, false
-	}
-	vals := make([]*big.Int, arr.Len())
-	written := make([]ssa.Instruction, arr.Len())
-	// elemStores: the uses of an element address; stores (of constants, at a
-	// constant index, once per element) are accepted in the initialiser only
-	elemStores := func(x *ssa.IndexAddr, inInit bool) bool {
-		if x.Referrers() == nil {
-			return false
-		}
-		for _, r := range *x.Referrers() {
-			switch y := r.(type) {
-			case *ssa.DebugRef:
-			case *ssa.UnOp:
-				if y.Op != token.MUL {
-					return false
-				}
-			case *ssa.Store:
-				ic, isC := x.Index.(*ssa.Const)
-				if !inInit || y.Addr != ssa.Value(x) || !isC || ic.Value == nil {
-					return false
-				}
-				i := ic.Int64()
-				if i < 0 || i >= arr.Len() || (written[i] != nil && written[i] != r) {
-					return false
-				}
-				c, isK := y.Val.(*ssa.Const)
-				if !isK || c.Value == nil {
-					return false
-				}
-				switch c.Value.Kind() {
-				case constant.Bool:
-					vals[i] = new(big.Int)
-					if constant.BoolVal(c.Value) {
-						vals[i] = big.NewInt(1)
-					}
-				case constant.Int:
-					bv, ok := new(big.Int).SetString(c.Value.ExactString(), 10)
-					if !ok {
-						return false
-					}
-					vals[i] = bv
-				default:
-					return false
-				}
-				written[i] = r
-			default:
-				return false
-			}
-		}
-		return true
-	}
-	var initStore *ssa.Store
-	for _, fn := range w.allPkgFuncs() {
-		inInit := fn.Name() == "init" && fn.Synthetic != ""
-		for _, b := range fn.Blocks {
-			for _, in := range b.Instrs {
-				uses := false
-				for _, op := range in.Operands(nil) {
-					if *op == ssa.Value(g) {
-						uses = true
-					}
-				}
-				if !uses {
-					continue
-				}
-				switch x := in.(type) {
-				case *ssa.Store:
-					// the whole array copied from the literal's temporary
-					if x.Addr != ssa.Value(g) || (initStore != nil && initStore != x) || !inInit {
-						return nil, false
-					}
-					initStore = x
-				case *ssa.UnOp:
-					if x.Op != token.MUL {
-						return nil, false
-					}
-				case *ssa.IndexAddr:
-					if x.X != ssa.Value(g) || !elemStores(x, inInit) {
-						return nil, false
-					}
-				case *ssa.DebugRef:
-				default:
-					return nil, false
-				}
-			}
-		}
-	}
-	if initStore != nil {
-		for _, wr := range written {
-			if wr != nil {
-				return nil, false // both forms at once: order of effects not modelled
-			}
-		}
-		ld, ok := initStore.Val.(*ssa.UnOp)
-		if !ok || ld.Op != token.MUL {
-			return nil, false
-		}
-		al, ok := ld.X.(*ssa.Alloc)
-		if !ok || al.Referrers() == nil {
-			return nil, false
-		}
-		for _, ref := range *al.Referrers() {
-			switch x := ref.(type) {
-			case *ssa.UnOp:
-				if x != ld {
-					return nil, false
-				}
-			case *ssa.DebugRef:
-			case *ssa.IndexAddr:
-				if x.X != ssa.Value(al) || !elemStores(x, true) {
-					return nil, false
-				}
-			default:
-				return nil, false
-			}
-		}
-	}
-	for i := range vals {
-		if vals[i] == nil {
-			vals[i] = new(big.Int)
-		}
-	}
-	garrMemo[g] = vals
-	return vals, true
 }
 
 func init() {
